@@ -38,6 +38,8 @@ def kind_class(kind):
     k = kind.lower()
     if 'derived through a shared borrow' in k or 'dangling reference' in k:
         return 'provenance'
+    if 'held by value in a stack frame' in k:
+        return 'stack'
     if 'already freed' in k:
         return 'use-after-free'
     if 'never freed' in k:
